@@ -44,51 +44,46 @@ inductive RRKind
   | apl
   | svcb (https : Bool)
 
-private def nm (c : Bool) : Fld := .name c
-private def u8 : Fld := .num 1
-private def u16 : Fld := .num 2
-private def u32 : Fld := .num 4
-private def u64 : Fld := .num 8
 
 def rrKind : Nat → Option RRKind
   | 1 => some (.regular ⟨"A", some .aClass, [("ipv4_addr", .oct 1 4)]⟩)
-  | 2 => some (.regular ⟨"NS", none, [("ns_d_name", nm true)]⟩)
-  | 3 => some (.regular ⟨"MD", none, [("mad_name", nm true)]⟩)
-  | 4 => some (.regular ⟨"MF", none, [("mad_name", nm true)]⟩)
-  | 5 => some (.regular ⟨"CNAME", none, [("c_name", nm true)]⟩)
-  | 6 => some (.regular ⟨"SOA", none, [("m_name", nm true), ("r_name", nm true), ("serial", u32),
-            ("refresh", u32), ("retry", u32), ("expire", u32), ("min_ttl", u32)]⟩)
-  | 7 => some (.regular ⟨"MB", none, [("mad_name", nm true)]⟩)
-  | 8 => some (.regular ⟨"MG", none, [("mgm_name", nm true)]⟩)
-  | 9 => some (.regular ⟨"MR", none, [("new_name", nm true)]⟩)
+  | 2 => some (.regular ⟨"NS", none, [("ns_d_name", .name true)]⟩)
+  | 3 => some (.regular ⟨"MD", none, [("mad_name", .name true)]⟩)
+  | 4 => some (.regular ⟨"MF", none, [("mad_name", .name true)]⟩)
+  | 5 => some (.regular ⟨"CNAME", none, [("c_name", .name true)]⟩)
+  | 6 => some (.regular ⟨"SOA", none, [("m_name", .name true), ("r_name", .name true), ("serial", .num 4),
+            ("refresh", .num 4), ("retry", .num 4), ("expire", .num 4), ("min_ttl", .num 4)]⟩)
+  | 7 => some (.regular ⟨"MB", none, [("mad_name", .name true)]⟩)
+  | 8 => some (.regular ⟨"MG", none, [("mgm_name", .name true)]⟩)
+  | 9 => some (.regular ⟨"MR", none, [("new_name", .name true)]⟩)
   | 10 => some (.regular ⟨"NULL", none, [("data", .rest false)]⟩)
-  | 11 => some (.regular ⟨"WKS", some .wksClass, [("ipv4_addr", .oct 1 4), ("protocol", u8),
+  | 11 => some (.regular ⟨"WKS", some .wksClass, [("ipv4_addr", .oct 1 4), ("protocol", .num 1),
             ("bit_map", .rest false)]⟩)
-  | 12 => some (.regular ⟨"PTR", none, [("ptr_d_name", nm true)]⟩)
+  | 12 => some (.regular ⟨"PTR", none, [("ptr_d_name", .name true)]⟩)
   | 13 => some (.regular ⟨"HINFO", none, [("cpu", .cstr .any), ("os", .cstr .any)]⟩)
-  | 14 => some (.regular ⟨"MINFO", none, [("r_mail_bx", nm true), ("e_mail_bx", nm true)]⟩)
-  | 15 => some (.regular ⟨"MX", none, [("preference", u16), ("exchange", nm true)]⟩)
+  | 14 => some (.regular ⟨"MINFO", none, [("r_mail_bx", .name true), ("e_mail_bx", .name true)]⟩)
+  | 15 => some (.regular ⟨"MX", none, [("preference", .num 2), ("exchange", .name true)]⟩)
   | 16 => some (.regular ⟨"TXT", none, [("strings", .strs)]⟩)
-  | 17 => some (.regular ⟨"RP", none, [("mbox_dname", nm false), ("txt_dname", nm false)]⟩)
-  | 18 => some (.regular ⟨"AFSDB", none, [("subtype", .enum 2 .afsdbSubtype), ("hostname", nm false)]⟩)
+  | 17 => some (.regular ⟨"RP", none, [("mbox_dname", .name false), ("txt_dname", .name false)]⟩)
+  | 18 => some (.regular ⟨"AFSDB", none, [("subtype", .enum 2 .afsdbSubtype), ("hostname", .name false)]⟩)
   | 19 => some (.regular ⟨"X25", none, [("psdn_address", .cstr .psdn)]⟩)
   | 20 => some (.regular ⟨"ISDN", none, [("isdn_address", .cstr .isdn), ("sa", .ocstr .sa)]⟩)
-  | 21 => some (.regular ⟨"RT", none, [("preference", u16), ("intermediate_host", nm false)]⟩)
+  | 21 => some (.regular ⟨"RT", none, [("preference", .num 2), ("intermediate_host", .name false)]⟩)
   | 22 => some (.regular ⟨"NSAP", none, [("data", .rest false)]⟩)
-  | 26 => some (.regular ⟨"PX", none, [("preference", u16), ("map822", nm false), ("mapx400", nm false)]⟩)
+  | 26 => some (.regular ⟨"PX", none, [("preference", .num 2), ("map822", .name false), ("mapx400", .name false)]⟩)
   | 27 => some (.regular ⟨"GPOS", none, [("longitude", .cstr .gpos), ("latitude", .cstr .gpos),
             ("altitude", .cstr .gpos)]⟩)
   | 28 => some (.regular ⟨"AAAA", some .aaaaClass, [("ipv6_addr", .oct 8 2)]⟩)
-  | 29 => some (.regular ⟨"LOC", none, [("version", u8), ("size", u8), ("horiz_pre", u8), ("vert_pre", u8),
-            ("latitube", u32), ("longitube", u32), ("altitube", u32)]⟩)
+  | 29 => some (.regular ⟨"LOC", none, [("version", .num 1), ("size", .num 1), ("horiz_pre", .num 1), ("vert_pre", .num 1),
+            ("latitube", .num 4), ("longitube", .num 4), ("altitube", .num 4)]⟩)
   | 31 => some (.regular ⟨"EID", none, [("data", .rest false)]⟩)
   | 32 => some (.regular ⟨"NIMLOC", none, [("data", .rest false)]⟩)
-  | 33 => some (.regular ⟨"SRV", none, [("priority", u16), ("weight", u16), ("port", u16), ("target", nm false)]⟩)
-  | 36 => some (.regular ⟨"KX", none, [("preference", u16), ("exchanger", nm false)]⟩)
-  | 39 => some (.regular ⟨"DNAME", none, [("target", nm false)]⟩)
+  | 33 => some (.regular ⟨"SRV", none, [("priority", .num 2), ("weight", .num 2), ("port", .num 2), ("target", .name false)]⟩)
+  | 36 => some (.regular ⟨"KX", none, [("preference", .num 2), ("exchanger", .name false)]⟩)
+  | 39 => some (.regular ⟨"DNAME", none, [("target", .name false)]⟩)
   | 41 => some .opt
   | 42 => some .apl
-  | 43 => some (.regular ⟨"DS", none, [("key_tag", u16), ("algorithm_type", .enum 1 .algorithmType),
+  | 43 => some (.regular ⟨"DS", none, [("key_tag", .num 2), ("algorithm_type", .enum 1 .algorithmType),
             ("digest_type", .enum 1 .digestType), ("digest", .rest false)]⟩)
   | 44 => some (.regular ⟨"SSHFP", none, [("algorithm", .enum 1 .sshfpAlgorithm), ("type_", .enum 1 .sshfpType),
             ("fp", .rest false)]⟩)
@@ -96,14 +91,14 @@ def rrKind : Nat → Option RRKind
             ("algorithm_type", .enum 1 .algorithmType), ("public_key", .rest false)]⟩)
   | 64 => some (.svcb false)
   | 65 => some (.svcb true)
-  | 104 => some (.regular ⟨"NID", none, [("preference", u16), ("node_id", u64)]⟩)
-  | 105 => some (.regular ⟨"L32", none, [("preference", u16), ("locator_32", u32)]⟩)
-  | 106 => some (.regular ⟨"L64", none, [("preference", u16), ("locator_64", u64)]⟩)
-  | 107 => some (.regular ⟨"LP", none, [("preference", u16), ("fqdn", nm false)]⟩)
+  | 104 => some (.regular ⟨"NID", none, [("preference", .num 2), ("node_id", .num 8)]⟩)
+  | 105 => some (.regular ⟨"L32", none, [("preference", .num 2), ("locator_32", .num 4)]⟩)
+  | 106 => some (.regular ⟨"L64", none, [("preference", .num 2), ("locator_64", .num 8)]⟩)
+  | 107 => some (.regular ⟨"LP", none, [("preference", .num 2), ("fqdn", .name false)]⟩)
   | 108 => some (.regular ⟨"EUI48", none, [("eui_48", .oct 6 1)]⟩)
   | 109 => some (.regular ⟨"EUI64", none, [("eui_64", .oct 8 1)]⟩)
-  | 256 => some (.regular ⟨"URI", none, [("priority", u16), ("weight", u16), ("uri", .rest true)]⟩)
-  | 257 => some (.regular ⟨"CAA", none, [("flags", u8), ("tag", .cstr .tag), ("value", .rest false)]⟩)
+  | 256 => some (.regular ⟨"URI", none, [("priority", .num 2), ("weight", .num 2), ("uri", .rest true)]⟩)
+  | 257 => some (.regular ⟨"CAA", none, [("flags", .num 1), ("tag", .cstr .tag), ("value", .rest false)]⟩)
   | _ => none
 
 /-- the 46 implemented record types -/
